@@ -220,8 +220,49 @@ class Check(PropertyCheck):
         self.count("page_sweep_cases", len(out))
         return out
 
+    def arc_neighbours(self, n):
+        """a half or a quarter of a catalogue circle (the art cut at its centre column / row) next to a part that holds a
+        `{tag}` text, a label or a tagged box close to the cut: an open arc has a bounding box, a chord and a centre that
+        reach beyond its own cells, so whatever is decided from them may take hold of the neighbour"""
+        import props.c13 as c13
+        cat = [a for a, _ in c13.catalogue()]
+        out = []
+        for _ in range(n):
+            art = self.rng.choice(cat[4:]).split("\n")
+            w = max(len(r) for r in art)
+            art = [r.ljust(w) for r in art]
+            h = len(art)
+            cut = self.rng.below(4)
+            inc = self.rng.below(2)
+            if cut == 0:      # left half (open to the right)
+                piece = [r[: w // 2 + inc] for r in art]
+            elif cut == 1:    # right half (open to the left)
+                piece = [r[w // 2 + 1 - inc:] for r in art]
+            elif cut == 2:    # top half (open below)
+                piece = art[: h // 2 + inc]
+            else:             # bottom half
+                piece = art[h // 2 + 1 - inc:]
+            a = clean("\n".join(piece))
+            if not a:
+                continue
+            tag = self.rng.choice(["{a}", "{a,b}", "{w}", "note", "{a} x", "+-----+\n| {a} |\n+-----+", "{n0}"])
+            ph = len(a.split("\n"))
+            pw = max(len(r) for r in a.split("\n"))
+            gap = self.rng.range(1, 2)
+            if cut < 2:
+                # beside the cut, on a row near the diameter
+                b = "\n" * max(0, ph // 2 + self.rng.range(-2, 2)) + tag
+                pair = (a, b, gap, "side") if cut == 0 else (b, a, gap, "side")
+            else:
+                b = " " * max(0, pw // 2 + self.rng.range(-4, 2)) + tag.replace("\n", "\n" + " " * max(0, pw // 2 - 3))
+                pair = (a, b, gap, "stack") if cut == 2 else (b, a, gap, "stack")
+            out.append(pair)
+        self.count("arc_neighbour_cases", len(out))
+        return out
+
     def search(self, boost=1):
-        return self.oracle(self.combos(self.scale(600, 10000) * boost) + self.page_sweeps())
+        return self.oracle(self.combos(self.scale(600, 10000) * boost) + self.page_sweeps() +
+                           self.arc_neighbours(self.scale(200, 3000) * boost))
 
     def replay_case(self, case):
         return self.oracle([(case["a"], case["b"], case["gap"], case["mode"])])
